@@ -29,6 +29,7 @@ import (
 	"io"
 	"net"
 	"os"
+	"strings"
 	"syscall"
 	"time"
 
@@ -775,13 +776,21 @@ func C02(tier string) *engine.Report {
 		d.Budget = 25 * time.Minute
 	}
 	tot.Add(d.Run(), rep)
+	if len(rep.Violations) == 0 {
+		bres := c02BuffersDFS(tier).Run()
+		tot.Add(bres, rep)
+		rep.Coverage["buffer_driven_writes"] = map[string]any{"executions": bres.Executions, "finished": bres.Exhaustive, "violations": len(bres.Violations)}
+	}
 	tot.Fill(rep, "reads: every composition of an N-byte stream (N<=5 quick, <=8 thorough) x buffer sizes {1,2,3,5,8} x AsyncRead/AsyncReadAll over Dial conn, accepted conn, FIFO file and AsyncAdapter, with poll placement, late/forced-deferred start and a concurrent write as deviations; "+
-		"writes: FIFO of 1-2 pages x 7 sizes x reader drain patterns, TCP with minimal send buffer (kernel-chosen splits recorded); AsyncAdapter with a scripted io.ReadWriter returning every (n, err) answer; chains of 33/34/70 reads or writes of distinct 1-5 byte buffers, each issued from the previous completion (crossing the dispatch limit), over conn/accepted conn/FIFO/adapter x plain/All; all combinations of up to N deviations; non-trivial = more than one chunk or any write/adapter scenario", d.MaxDeviations)
+		"writes: FIFO of 1-2 pages x 7 sizes x reader drain patterns, TCP with minimal send buffer (kernel-chosen splits recorded); AsyncAdapter with a scripted io.ReadWriter returning every (n, err) answer; chains of 33/34/70 reads or writes of distinct 1-5 byte buffers, each issued from the previous completion (crossing the dispatch limit), over conn/accepted conn/FIFO/adapter x plain/All; all combinations of up to N deviations; non-trivial = more than one chunk or any write/adapter scenario; plus payloads of 100 kB and 1 MiB pushed through ByteBuffer.WriteTo / AsyncWriteTo into a TCP connection with a 4 KiB send buffer and a one-page FIFO while the peer drains at once or 8 KiB per step", d.MaxDeviations)
 	rep.Assumptions = append(rep.Assumptions, "TCP write split sizes are chosen by the kernel and only observed; the enumerated partial-write patterns are the FIFO and scripted-adapter transports, which share the code path")
 	return rep
 }
 
 func C02Replay(v engine.Violation, log func(string)) *engine.Violation {
+	if strings.HasPrefix(v.Config, "buffers@") {
+		return c02BuffersDFS(v.Config[8:]).ReplayChoices(v.Choices)
+	}
 	return c02DFS(v.Config[8:]).ReplayChoices(v.Choices)
 }
 
